@@ -403,3 +403,40 @@ def options_structure(index, registry):
                         bad.append("%s:%d augmented assignment to parameter %s" % (q, st.lineno, t.id))
     ob("caller_arrays_never_stored_into", not bad, {"stores": bad[:8]})
     return out
+
+
+# ---------------------------------------------------------------------------------------------------------------------
+# C12: support for the assumed clause `nan_tail` (unused log rows never equal a point): every allocation / growth of the log's
+# value arrays fills the new rows with NaN
+# ---------------------------------------------------------------------------------------------------------------------
+def log_rows_filled_with_nan(index, registry):
+    FLQ = "pybads.function_logger.function_logger.FunctionLogger."
+    watched = {"X", "X_orig", "Y", "Y_orig", "S"}
+    bad, seen = [], 0
+
+    def is_nan(e):
+        return ast.unparse(e) in ("np.nan", "numpy.nan", "float('nan')")
+
+    def nan_full(e):
+        return isinstance(e, ast.Call) and ast.unparse(e.func) == "np.full" and len(e.args) >= 2 and is_nan(e.args[1])
+
+    for fn in ("__init__", "_expand_arrays"):
+        fi = index.find(FLQ + fn)
+        if fi is None:
+            bad.append(fn + " not found")
+            continue
+        for n in ast.walk(fi.node):
+            if isinstance(n, ast.Assign) and len(n.targets) == 1 and isinstance(n.targets[0], ast.Attribute) and isinstance(n.targets[0].value, ast.Name) \
+                    and n.targets[0].value.id == "self" and n.targets[0].attr in watched:
+                seen += 1
+                v = n.value
+                ok = nan_full(v)
+                if isinstance(v, ast.Call) and ast.unparse(v.func) in ("np.append", "np.concatenate", "np.vstack"):
+                    parts = v.args[1:2] if ast.unparse(v.func) == "np.append" else (v.args[0].elts[1:] if v.args and isinstance(v.args[0], (ast.Tuple, ast.List)) else [])
+                    ok = bool(parts) and all(nan_full(p_) for p_ in parts)
+                if isinstance(v, ast.Call) and ast.unparse(v.func) == "np.pad":
+                    ok = any(k.arg == "constant_values" and is_nan(k.value) for k in v.keywords)
+                if not ok:
+                    bad.append("%s:%d self.%s = %s" % (fn, n.lineno, n.targets[0].attr, ast.unparse(v)[:70]))
+    return [{"name": "scan::logger::new_log_rows_are_filled_with_nan", "kind": "structure", "top": False, "result": "unsat" if (not bad and seen >= 8) else "sat", "secs": 0.0,
+             "model": {"allocations_seen": seen, "not_nan_filled": bad[:6]}}]
